@@ -298,6 +298,12 @@ async fn scatter_sql_over_table(
             elapsed_ms: started.elapsed().as_secs_f64() * 1000.0,
             local: true,
         });
+        // A rowless local shard still contributes its schema, exactly like the
+        // schema-only placeholder `decode_ipc` yields for a rowless remote
+        // shard; without it an empty answer had no schema to merge under.
+        if r.batches.is_empty() {
+            batches.push(RecordBatch::new_empty(r.schema.clone()));
+        }
         batches.extend(r.batches);
         return Ok((batches, contributions));
     }
@@ -356,6 +362,12 @@ async fn scatter_sql_over_table(
             elapsed_ms: elapsed.as_secs_f64() * 1000.0,
             local: true,
         });
+        // A rowless local shard still contributes its schema, exactly like the
+        // schema-only placeholder `decode_ipc` yields for a rowless remote
+        // shard; without it an empty answer had no schema to merge under.
+        if r.batches.is_empty() {
+            batches.push(RecordBatch::new_empty(r.schema.clone()));
+        }
         batches.extend(r.batches);
     }
 
